@@ -617,6 +617,11 @@ class Gen:
                 self.features.add("cast")
                 return Cast(r.choice(other), ty)
             return self.lit(ty)
+        hs = [h for h in getattr(self, "helpers", []) if len(h.rets) == 1 and h.rets[0] == ty]
+        if hs and d >= 1 and r.random() < 0.5:
+            h = r.choice(hs)
+            self.features.add("call")
+            return Call1(h, [self.rexpr(t, scope, d - 1) for _, t in h.params])
         k = r.random()
         if k < 0.45:
             ops = ["+", "-", "&", "|", "^", "&^"]
@@ -817,6 +822,19 @@ class Gen:
         self.features.add("phi-stress")
         return out
 
+    def live_ret(self, ty, scope, d):
+        """return expression that keeps several of the computed variables alive"""
+        r = self.rnd
+        e = self.rexpr(ty, scope, d)
+        if ty.kind == "bool":
+            return e
+        vs = [(n, t) for n, t in scope.items() if isinstance(t, Ty) and t.kind != "bool" and cast_ok(t, ty)]
+        r.shuffle(vs)
+        for n, t in vs[:r.randint(1, 3)]:
+            v = Var(n, t) if t == ty else Cast(Var(n, t), ty)
+            e = Bin(r.choice(["+", "^", "-", "+"]), e, v)
+        return e
+
     def func(self, name, params, rets, nst, d, allow_return=True):
         scope = {n: t for n, t in params}
         body = self.stmts(scope, rets, nst, d, allow_return)
@@ -829,7 +847,7 @@ class Gen:
                 rets_e.append(self.rnd.choice(c) if c and self.rnd.random() < 0.8 else self.rexpr(t, scope, d))
             body.append(Return(rets_e))
             return Func(name, params, rets, body)
-        body.append(Return([self.rexpr(t, scope, d) for t in rets]))
+        body.append(Return([self.live_ret(t, scope, d) for t in rets]))
         return Func(name, params, rets, body)
 
     def program(self):
